@@ -1,7 +1,8 @@
 (* Storage/C25Fault.v — disk write faults (M7 Fault): the environment may make any appending
    write of a flush stop after a strict prefix and fail ([FFshort j], j = 0 is a full reject),
    fail the in-place header update ([FFhdr]) or the header update / fsync of a Sync or Close
-   ([sync_ok = false]); faults clear later.  The fault oracle is part of the API history
+   ([sync_ok = false]), fail the truncation back after a short write ([FFshortDirty j]) and the
+   retried truncation of a later flush ([FFpre]); faults clear later.  The fault oracle is part of the API history
    (C02Writer.v); this file has the C25 case checker.  Model only (no proofs). *)
 From HV Require Import Base.Prelude Storage.C02Fs Storage.C02Writer Storage.C02Crash.
 Local Open Scope N_scope.
@@ -46,7 +47,7 @@ Fixpoint synced_cnt (open : bool) (cnt synced : nat) (h : list api) (oks : list 
       | AOpen => synced_cnt true cnt synced t oks'
       | ASync _ _ _ => synced_cnt open cnt (if ok && open then cnt else synced) t oks'
       | AClose _ _ _ => synced_cnt false cnt (if ok && open then cnt else synced) t oks'
-      | AFlush _ _ => synced_cnt open cnt synced t oks'
+      | AFlush _ _ | AOpenFail _ => synced_cnt open cnt synced t oks'
       end
   | _, _ => synced
   end.
